@@ -8,6 +8,8 @@ def backoff_delays(spec: dict) -> List[float]:
     """spec: {'family': 'periodic'|'exponential'|'fibonacci', 'attempts': n, 'jitter': c, ...family parameters}
     k-th delay (k from 0): periodic interval; exponential base*factor**k; fibonacci multiplier*fib(k) with
     fib = 1, 2, 3, 5, 8, ... ; each plus jitter, then capped by max_value when one is configured."""
+    if spec['family'] == 'custom-iterator':
+        return [float(x) for x in spec['schedule']]
     n, j = spec['attempts'], spec.get('jitter', 0.0)
     out = []
     a, b = 1, 2
@@ -29,6 +31,8 @@ def backoff_delays(spec: dict) -> List[float]:
 
 def raw_delays(spec: dict) -> List[float]:
     """The successive delays before jitter and cap."""
+    if spec['family'] == 'custom-iterator':
+        return [float(x) for x in spec['schedule']]
     out, a, b = [], 1, 2
     for k in range(spec['attempts']):
         if spec['family'] == 'periodic':
